@@ -117,6 +117,8 @@ class Abs(object):
         if isinstance(v, hs.Coordinate):
             return [K_COORD] + micro(v.latitude) + micro(v.longitude)
         if isinstance(v, self.Qty):
+            if type(v).__name__ != 'BasicQuantity':
+                raise NotAbstractable('pint quantities are out of scope')
             if v.unit is None or v.unit == '':
                 return [K_NUM, dec_of_float(v.value)]
             return [K_QTY, dec_of_float(v.value), cps(v.unit)]
